@@ -220,7 +220,7 @@ def has_symkey(v):
 
 
 def has_sym(v, depth=0):
-    if type(v) is Sym or type(v) is SObj or type(v) is NDArr or type(v).__module__ in ("pyvc.shapely_model", "pyvc.xmlmodel", "pyvc.tokstr") or type(v) is SymKey \
+    if type(v) is Sym or type(v) is SObj or type(v) is NDArr or type(v).__module__ in ("pyvc.shapely_model", "pyvc.xmlmodel", "pyvc.tokstr", "pyvc.pbmodel") or type(v) is SymKey \
             or type(v).__name__ in ("ArrStr", "NumText"):
         return True
     if depth > 3:
@@ -232,7 +232,7 @@ def has_sym(v, depth=0):
     return False
 
 
-_STDLIB_OK = {"re", "json", "os", "posixpath", "string", "textwrap", "itertools", "functools", "collections", "typing", "enum",
+_STDLIB_OK = {"google", "re", "json", "os", "posixpath", "string", "textwrap", "itertools", "functools", "collections", "typing", "enum",
               "datetime", "platform", "pathlib", "operator", "numbers", "abc", "keyword", "numpy", "logging", "warnings"}
 MAX_DEPTH = 60
 MAX_CONCRETE_LOOP = 5000
@@ -517,6 +517,11 @@ class Interp:
         m = self.models.get(cls)
         if m is not None:
             return m(self, args, kwargs)
+        if cls.__module__.endswith("_pb2"):
+            from . import pbmodel
+
+            if pbmodel.is_message_class(cls):
+                return pbmodel.new_message(self, cls, args, kwargs)
         if isinstance(cls, type) and issubclass(cls, BaseException):
             if is_repo_class(cls) and (isinstance(getattr(cls, "__init__", None), types.FunctionType) or isinstance(getattr(cls, "__new__", None), types.FunctionType)):
                 raise Unsupported("user exception class %s with its own constructor" % cls.__name__)
@@ -657,6 +662,16 @@ class Interp:
             from . import shapely_model
 
             return shapely_model.strtree_attr(self, obj, name)
+        if type(obj).__module__ == "pyvc.pbmodel":
+            from . import pbmodel
+
+            if type(obj) is pbmodel.PMsg:
+                return pbmodel.msg_getattr(self, obj, name)
+            if type(obj) is pbmodel.PRep:
+                return pbmodel.rep_getattr(self, obj, name)
+            if type(obj) is pbmodel.PFile:
+                return pbmodel.file_getattr(self, obj, name)
+            raise Unsupported("attribute %s of %s" % (name, type(obj).__name__))
         if type(obj).__module__ == "pyvc.xmlmodel":
             from . import xmlmodel
 
@@ -747,6 +762,12 @@ class Interp:
         self.write_log.append((obj, name))
 
     def setattr(self, obj, name, value):
+        if type(obj).__name__ == "PMsg" and type(obj).__module__ == "pyvc.pbmodel":
+            from . import pbmodel
+
+            if self.ctx.spec_depth > 0:
+                raise SpecAbort()
+            return pbmodel.msg_setattr(self, obj, name, value)
         if type(obj).__name__ == "XElem" and type(obj).__module__ == "pyvc.xmlmodel":
             if name in ("text", "tail"):
                 if value is not None and not isinstance(value, str) and type(value).__name__ != "NumText":
@@ -1002,6 +1023,10 @@ class Interp:
             if isinstance(cm, warnings.catch_warnings):
                 if item.optional_vars is not None:
                     self.assign(item.optional_vars, [], fr)
+                continue
+            if type(cm).__name__ == "PFile" and type(cm).__module__ == "pyvc.pbmodel":
+                if item.optional_vars is not None:
+                    self.assign(item.optional_vars, cm, fr)
                 continue
             raise Unsupported("with-statement on %r" % (type(cm),))
         self.exec_block(st.body, fr)
